@@ -1,5 +1,6 @@
 SPECIFICATION MCSpec
 CONSTANTS
+  SpuriousPass = FALSE
   AllSchedules = TRUE
   PermuteModules = FALSE
   MaxFuncs = 3
